@@ -49,8 +49,16 @@ def _int(b: bytes) -> int:
         return -1
 
 
-def _ids(data: bytes) -> list[int]:
-    return list(data)
+def _ids(data: bytes, gran: int = 1) -> list[int]:
+    """One id per granule of `gran` bytes: the byte value if the granule is uniform, 255 if it mixes chunks, 254 for a
+    trailing partial granule (ids proper are < 250)."""
+    if gran == 1:
+        return list(data)
+    out = []
+    for k in range(0, len(data), gran):
+        g = data[k:k + gran]
+        out.append(254 if len(g) < gran else g[0] if g.count(g[0]) == len(g) else 255)
+    return out
 
 
 class Runner:
@@ -66,6 +74,8 @@ class Runner:
         self.trace: list[dict] = []
         self.rng = random.Random(sc.get("cut", 0))
         self.unit = int(sc.get("unit", 1))
+        self.gran = int(sc.get("gran", 1))  # bytes per projected data id (big bodies: exhaust the 65535-byte connection window)
+        self.rx: dict = {}  # (side, stream id) -> received bytes that do not fill a granule yet
         self.rs = {int(k): v for k, v in sc.get("rs", {}).items()}  # client index -> request streamed?
         self.ps = {int(k): v for k, v in sc.get("ps", {}).items()}  # client index -> response streamed?
         opts = sansio.make_options(http2_ping_keepalive=0)
@@ -119,7 +129,7 @@ class Runner:
         elif cmd.name == "request":
             streamed = flow.request.raw_content is None
             rec = {"k": "f_req", "f": f, "ms": qms, "streamed": streamed,
-                   "d": [] if streamed else _ids(flow.request.raw_content),
+                   "d": [] if streamed else _ids(flow.request.raw_content, self.gran),
                    "tm": _markers(flow.request.trailers.fields) if flow.request.trailers else []}
         elif cmd.name == "responseheaders":
             i = qms[0] if len(qms) == 1 else 0
@@ -129,7 +139,7 @@ class Runner:
         elif cmd.name == "response":
             streamed = flow.response.raw_content is None
             rec = {"k": "f_resp", "f": f, "qms": qms, "ms": _markers(flow.response.headers.fields),
-                   "streamed": streamed, "d": [] if streamed else _ids(flow.response.raw_content),
+                   "streamed": streamed, "d": [] if streamed else _ids(flow.response.raw_content, self.gran),
                    "tm": _markers(flow.response.trailers.fields) if flow.response.trailers else []}
         elif cmd.name == "error":
             rec = {"k": "f_err", "f": f, "qms": qms}
@@ -309,18 +319,32 @@ class Runner:
         if (back["c"] or back["s"]) and not self.dead:
             self._settle()
 
+    def _rx_ids(self, side: str, sid: int, data: bytes) -> list[int]:
+        buf = self.rx.setdefault((side, sid), bytearray())
+        buf.extend(data)
+        n = len(buf) - len(buf) % self.gran
+        out = _ids(bytes(buf[:n]), self.gran)
+        del buf[:n]
+        return out
+
     def _peer_event(self, side: str, ev):
         import h2.events as E
 
         tr = self.trace
         idx = lambda sid: (sid + 1) // 2
+        if isinstance(ev, E.StreamEnded) and self.rx.get((side, ev.stream_id)):
+            # the stream ends in the middle of a granule
+            self.rx[(side, ev.stream_id)].clear()
+            tr.append({"k": "s_data", "t": idx(ev.stream_id), "d": [254]} if side == "s" else {"k": "c_rdata", "s": idx(ev.stream_id), "d": [254]})
         if side == "s":
             if isinstance(ev, E.RequestReceived):
                 tr.append({"k": "s_req", "t": idx(ev.stream_id), "ms": _markers(ev.headers)})
             elif isinstance(ev, E.DataReceived):
                 self.unacked["s"][ev.stream_id] = self.unacked["s"].get(ev.stream_id, 0) + ev.flow_controlled_length
                 if ev.data:
-                    tr.append({"k": "s_data", "t": idx(ev.stream_id), "d": _ids(ev.data)})
+                    d = self._rx_ids("s", ev.stream_id, ev.data)
+                    if d:
+                        tr.append({"k": "s_data", "t": idx(ev.stream_id), "d": d})
             elif isinstance(ev, E.TrailersReceived):
                 tr.append({"k": "s_trl", "t": idx(ev.stream_id), "ms": _markers(ev.headers)})
             elif isinstance(ev, E.StreamEnded):
@@ -339,7 +363,9 @@ class Runner:
                 self.unacked["c"][ev.stream_id] = self.unacked["c"].get(ev.stream_id, 0) + ev.flow_controlled_length
                 if ev.data:
                     own = idx(ev.stream_id) in self.own
-                    tr.append({"k": "c_rdata", "s": idx(ev.stream_id), "d": [] if own else _ids(ev.data)})
+                    d = [] if own else self._rx_ids("c", ev.stream_id, ev.data)
+                    if d or own:
+                        tr.append({"k": "c_rdata", "s": idx(ev.stream_id), "d": d})
             elif isinstance(ev, E.TrailersReceived):
                 tr.append({"k": "c_rtrl", "s": idx(ev.stream_id), "ms": _markers(ev.headers)})
             elif isinstance(ev, E.StreamEnded):
@@ -398,7 +424,7 @@ class Runner:
                     return False
                 cp.send_data(sid, payload, end_stream=kind == "data_end")
                 self.nchunks["c"][i] = self.nchunks["c"].get(i, 0) + 1
-                recs.append({"k": "c_data", "s": i, "d": _ids(payload)})
+                recs.append({"k": "c_data", "s": i, "d": _ids(payload, self.gran)})
                 if kind == "data_end":
                     recs.append({"k": "c_end", "s": i})
             elif kind == "trl":
@@ -416,6 +442,12 @@ class Runner:
                     return True
                 cp.acknowledge_received_data(n, sid)
                 recs.append({"k": "c_wu", "s": i})
+            elif kind == "wus":  # WINDOW_UPDATE on the stream only: arg granules
+                cp.increment_flow_control_window(int(arg) * self.gran, sid)
+                recs.append({"k": "c_wu", "s": i})
+            elif kind == "wuc":  # WINDOW_UPDATE on the connection only
+                cp.increment_flow_control_window(int(arg) * self.gran)
+                recs.append({"k": "c_wu", "s": 0})
             else:
                 return False
         except (h2.exceptions.ProtocolError, KeyError):
@@ -449,7 +481,7 @@ class Runner:
                     return False
                 sp.send_data(sid, payload, end_stream=kind == "data_end")
                 self.nchunks["s"][j] = self.nchunks["s"].get(j, 0) + 1
-                recs.append({"k": "r_data", "t": j, "d": _ids(payload)})
+                recs.append({"k": "r_data", "t": j, "d": _ids(payload, self.gran)})
                 if kind == "data_end":
                     recs.append({"k": "r_end", "t": j})
             elif kind == "trl":
@@ -467,6 +499,12 @@ class Runner:
                     return True
                 sp.acknowledge_received_data(n, sid)
                 recs.append({"k": "r_wu", "t": j})
+            elif kind == "wus":
+                sp.increment_flow_control_window(int(arg) * self.gran, sid)
+                recs.append({"k": "r_wu", "t": j})
+            elif kind == "wuc":
+                sp.increment_flow_control_window(int(arg) * self.gran)
+                recs.append({"k": "r_wu", "t": 0})
             else:
                 return False
         except (h2.exceptions.ProtocolError, KeyError):
@@ -580,20 +618,26 @@ class Runner:
         return self.trace
 
     def _open_windows(self):
-        """Final drain: both peers raise SETTINGS_INITIAL_WINDOW_SIZE, which widens every current and future stream."""
+        """Final drain: each peer opens its connection window, then raises SETTINGS_INITIAL_WINDOW_SIZE (which widens
+        every current and future stream)."""
         import h2.exceptions
         import h2.settings
 
         for side, peer in (("c", self.cp), ("s", self.sp)):
             if side == "s" and not self.preface_sent:
                 continue
-            try:
-                peer.update_settings({h2.settings.SettingCodes.INITIAL_WINDOW_SIZE: 1 << 20})
-            except h2.exceptions.ProtocolError:
-                continue  # the proxy has terminated this connection
-            data = peer.data_to_send()
-            if data and not self.dead:
-                self._deliver(side, [{"k": "c_wu", "s": 0} if side == "c" else {"k": "r_wu", "t": 0}], data, False)
+            rec = {"k": "c_wu", "s": 0} if side == "c" else {"k": "r_wu", "t": 0}
+            for step in ("connection", "streams"):
+                try:
+                    if step == "connection":
+                        peer.increment_flow_control_window(1 << 24)
+                    else:
+                        peer.update_settings({h2.settings.SettingCodes.INITIAL_WINDOW_SIZE: 1 << 24})
+                except h2.exceptions.ProtocolError:
+                    break  # the proxy has terminated this connection
+                data = peer.data_to_send()
+                if data and not self.dead:
+                    self._deliver(side, [dict(rec)], data, False)
 
     def run(self):
         self.start()
@@ -696,6 +740,17 @@ def random_scenario(sc: dict) -> list[dict]:
             for sid, n in r.unacked["s"].items():
                 if n:
                     choices.append(("s", (sid + 1) // 2, "wu"))
+        if sc.get("gran", 1) > 1:
+            # explicit WINDOW_UPDATEs, on a stream or on the connection, in any order and of any size
+            for i, (st, k) in cst.items():
+                if st != "rst":
+                    choices.append(("c", i, "wus"))
+            choices += [("c", 0, "wuc")] * 2
+            if not sclosed and r.server_conn is not None and r.preface_sent:
+                for j, (st, k) in sst.items():
+                    if st != "rst":
+                        choices.append(("s", j, "wus"))
+                choices.append(("s", 0, "wuc"))
         if not choices:
             break
         ch = rng.choice(choices)
@@ -708,6 +763,8 @@ def random_scenario(sc: dict) -> list[dict]:
                 if k > 8:
                     continue
                 arg = req_chunk_id(i, k)
+            elif kind in ("wus", "wuc"):
+                arg = rng.choice([1, 1, 2, 3])
             op = ["c", i, kind, arg, hold]
             ok = r.client_op(i, kind, arg, hold)
             if ok:
@@ -725,8 +782,8 @@ def random_scenario(sc: dict) -> list[dict]:
                     cst[i][0] = "ended"
                 elif kind == "rst":
                     cst[i][0] = "rst"
-            elif kind in ("data", "data_end"):
-                continue  # window exhausted on the peer: try something else
+            elif kind in ("data", "data_end", "wus", "wuc"):
+                continue  # window exhausted on the peer / stream already closed there: try something else
         elif ch[0] == "s":
             _, j, kind = ch
             arg = None
@@ -735,6 +792,8 @@ def random_scenario(sc: dict) -> list[dict]:
                 if k > 8:
                     continue
                 arg = resp_chunk_id(j, k)
+            elif kind in ("wus", "wuc"):
+                arg = rng.choice([1, 1, 2, 3])
             op = ["s", j, kind, arg, hold]
             ok = r.server_op(j, kind, arg, hold)
             if ok:
@@ -746,7 +805,7 @@ def random_scenario(sc: dict) -> list[dict]:
                     sst[j][0] = "ended"
                 elif kind == "rst":
                     sst[j][0] = "rst"
-            elif kind in ("data", "data_end"):
+            elif kind in ("data", "data_end", "wus", "wuc"):
                 continue
             else:
                 sst[j][0] = "rst"  # the peer refuses (stream already closed on its side): do not try again
@@ -768,9 +827,17 @@ def random_scenario(sc: dict) -> list[dict]:
 ALLK = ("hdr", "hdr_end", "data", "data_end", "trl", "end", "rst")
 
 
-def _cfg(n, maxdata, rs, ps, limit0, late, setvals, maxset, ck, sk):
+GRAN = 21845  # 65535 / 3: the client's connection window (fixed by RFC 9113) is 3 granules
+NOFC = dict(sw=1000, cw=1000, chunk=1, wus=frozenset(), maxwu=0)
+
+
+def _cfg(n, maxdata, rs, ps, limit0, late, setvals, maxset, ck, sk, fc=None):
     return dict(n=n, maxdata=maxdata, rs=tuple(rs), ps=tuple(ps), limit0=limit0, late=late, setvals=frozenset(setvals),
-                maxset=maxset, ck=frozenset(ck), sk=frozenset(sk))
+                maxset=maxset, ck=frozenset(ck), sk=frozenset(sk), fc=core.tlaval.FrozenDict(fc or NOFC))
+
+
+def _fc(sw, chunk, wus, maxwu):
+    return dict(sw=sw, cw=3, chunk=chunk, wus=frozenset(wus), maxwu=maxwu)
 
 
 F, T_ = False, True
@@ -782,6 +849,10 @@ QUICK_CONFIGS = (
     _cfg(2, 1, (T_, F, F), (F, T_, F), 1, F, (), 0, {"hdr", "data", "data_end", "trl"}, {"hdr", "data", "data_end", "trl"}),  # bodies
     _cfg(2, 1, (T_, F, F), (F, T_, F), 1, F, (), 0, {"hdr", "hdr_end", "end", "rst"}, {"hdr", "hdr_end", "rst"}),  # resets
     _cfg(3, 1, (F, T_, F), (F, F, F), 1, T_, {1, 3}, 1, {"hdr", "hdr_end", "end"}, {"hdr_end"}),                  # late preface
+    # flow control towards the client: 2 streams share the 3-granule connection window, chunks of 2 granules; the
+    # stream windows are larger (4) or smaller (1) than it; WINDOW_UPDATEs of 1 or 2 granules on a stream or the connection
+    _cfg(2, 2, (F, F, F), (T_, F, F), 0, F, (), 0, {"hdr_end"}, {"hdr", "data", "data_end", "trl"}, _fc(4, 2, {1, 2}, 2)),
+    _cfg(2, 1, (F, F, F), (T_, T_, F), 0, F, (), 0, {"hdr_end"}, {"hdr", "data", "data_end"}, _fc(1, 2, {1}, 3)),
 )
 # thorough tier, exhaustive without dump (statistics + model-level check): 3 streams, bodies, resets from both sides,
 # a raised limit -- 513 191 states / 996 134 transitions, depth 15 (measured)
@@ -799,8 +870,17 @@ def _consts(cfgs):
 
 
 def _view(trace):
-    """drift view: deliveries are cut into arbitrary segments, so the "in" markers are not compared"""
-    return [r for r in trace if r["k"] not in ("in", "cfg")]
+    """drift view: deliveries are cut into arbitrary segments and DATA into frames of at most 16 KiB, so the "in" markers
+    and window updates are not compared and consecutive data records of one stream are merged"""
+    out = []
+    for r in trace:
+        if r["k"] in ("in", "cfg", "c_wu", "r_wu"):
+            continue
+        if out and r["k"] in ("c_rdata", "s_data") and out[-1]["k"] == r["k"] and out[-1].get("s") == r.get("s") and out[-1].get("t") == r.get("t"):
+            out[-1] = dict(out[-1], d=list(out[-1]["d"]) + list(r["d"]))
+        else:
+            out.append(dict(r))
+    return out
 
 
 class Check(core.PropertyCheck):
@@ -852,6 +932,8 @@ class Check(core.PropertyCheck):
                 ops.append(["s", args[0], str(args[1])])
             elif name == "Settings":
                 ops.append(["settings", args[0]])
+            elif name == "CWu":
+                ops.append(["c", args[0], "wus", args[1]] if args[0] else ["c", 0, "wuc", args[1]])
             elif name == "Finish":
                 break
         return ops
@@ -861,7 +943,10 @@ class Check(core.PropertyCheck):
         pred = _view(core.predicted_events(beh))
         if not pred or pred[-1].get("k") != "end":
             pred = pred + [{"k": "end"}]
-        data = {"limit0": cfg["limit0"], "late": cfg["late"], "unit": 1, "cut": rng.randrange(1 << 30),
+        fc = cfg["fc"]
+        fcon = fc["sw"] < 1000
+        data = {"limit0": cfg["limit0"], "late": cfg["late"], "cut": rng.randrange(1 << 30),
+                "gran": GRAN if fcon else 1, "unit": GRAN * fc["chunk"] if fcon else 1, "cwin": GRAN * fc["sw"] if fcon else 0,
                 "rs": {str(i + 1): v for i, v in enumerate(cfg["rs"])}, "ps": {str(i + 1): v for i, v in enumerate(cfg["ps"])},
                 "ops": self._ops(beh)}
         return core.Scenario(data, predicted=pred, source=source)
@@ -869,14 +954,24 @@ class Check(core.PropertyCheck):
     def scenarios(self, ctx, models):
         rng = random.Random(ctx.seed + 5)
         g = models[0].graph
-        behs = g.edge_cover(ctx.rng, max_len=40, tail=8)
-        ctx.notes["edge_cover_paths"] = len(behs)
-        cap = 900 if ctx.quick else 30000
-        if len(behs) > cap:  # quick tier: a seeded sample of the edge cover (the thorough tier replays all of it)
-            behs = rng.sample(behs, cap)
-        behs += g.random_walks(ctx.rng, 200 if ctx.quick else 3000, 30)
-        for b in behs:
-            yield self._scenario(b, rng, "model")
+        mk = g._mk
+        g._mk = lambda path: path  # keep node ids: every behaviour is extended to its Finish step (which, with flow
+        try:                       # control, opens all windows and has effects of its own)
+            raw = g.edge_cover(ctx.rng, max_len=40, tail=8)
+            ctx.notes["edge_cover_paths"] = len(raw)
+            cap = 900 if ctx.quick else 30000
+            if len(raw) > cap:  # quick tier: a seeded sample of the edge cover (the thorough tier replays all of it)
+                raw = rng.sample(raw, cap)
+            raw += g.random_walks(ctx.rng, 200 if ctx.quick else 3000, 30)
+        finally:
+            g._mk = mk
+        for path in raw:
+            if path[-1][0] != "Finish":
+                fin = [e for e in g.succ.get(path[-1][2], []) if e[0] == "Finish"]
+                if not fin:
+                    continue  # the behaviour ends in a state the model's monitor rejects
+                path = path + [fin[0]]
+            yield self._scenario(mk(path), rng, "model")
         if not ctx.quick:
             behs, _r = ctx.simulate(self.MODEL, _consts(SIM_CONFIGS), num=2000, depth=40, timeout=3000)
             for b in behs:
@@ -919,6 +1014,15 @@ class Check(core.PropertyCheck):
                                  "hold": rng.choice([0, 0.2]), "allow_close": True,
                                  "rs": {str(i): rng.random() < 0.4 for i in range(1, 13)},
                                  "ps": {str(i): rng.random() < 0.4 for i in range(1, 13)}, "cwin": 0, "swin": 0}, source="random")
+        # bodies large enough to exhaust the 65535-byte CONNECTION windows (granule = 21845 bytes), stream windows above
+        # and below them, WINDOW_UPDATEs on streams and connections in any order
+        for k in range(40 if ctx.quick else 600):
+            yield core.Scenario({"ops": None, "seed": rng.randrange(1 << 30), "n": rng.randint(2, 5), "steps": rng.randint(15, 60),
+                                 "limit0": rng.choice([0, 2, 3]), "late": False, "cut": rng.randrange(1 << 30),
+                                 "gran": GRAN, "unit": GRAN * rng.choice([1, 2, 2]), "hold": rng.choice([0, 0.2]),
+                                 "rs": {str(i): rng.random() < 0.5 for i in range(1, 13)},
+                                 "ps": {str(i): rng.random() < 0.5 for i in range(1, 13)},
+                                 "cwin": GRAN * rng.choice([1, 2, 4, 6]), "swin": GRAN * rng.choice([1, 2, 4, 6])}, source="random")
         for k in range(6 if ctx.quick else 60):
             yield core.Scenario({"ops": None, "seed": rng.randrange(1 << 30), "n": 12, "steps": 90, "burst": True,
                                  "limit0": rng.choice([0, 3, 11]), "late": True, "cut": rng.randrange(1 << 30), "unit": 1,
